@@ -681,6 +681,9 @@ func (e *Engine) instrEffects(f *ssa.Function, in ssa.Instruction) []string {
 		return e.callEffects(f, v.Common())
 	case *ssa.UnOp:
 		if v.Op == token.ARROW {
+			if v.CommaOk {
+				return []string{"CH", "G|chan.drained|Bool"}
+			}
 			return []string{"CH"}
 		}
 	}
